@@ -85,6 +85,43 @@ theorem merge_code_is_store_ops (st : Store) (k : Key) (new : EIvl) :
     (storeSelf st k new).get k = some (mergeStored EVal.max EVal.min (st.get k) new) :=
   ⟨storeOther_get_eq_mergeNew st k new, storeSelf_get_eq_mergeStored st k new⟩
 
+/-! ## function keys of state goals -/
+
+/-- goals on a state and on a negated alias of a state never have the same function key (state
+    names do not start with `-`), and two state goals share a key exactly when they act on the same
+    canonical state with the same sign -/
+theorem stateGoalKey_injective (c c' : String) (p p' : Bool)
+    (hc : c.toList.head? ≠ some '-') (hc' : c'.toList.head? ≠ some '-') :
+    stateGoalKey c p = stateGoalKey c' p' ↔ c = c' ∧ p = p' := by
+  have hneg : ∀ a b : String, b.toList.head? ≠ some '-' → "-" ++ a ≠ b := by
+    intro a b hb h
+    apply hb
+    rw [← h]
+    simp [String.toList_append]
+  cases p <;> cases p' <;> simp only [stateGoalKey, Bool.false_eq_true, if_false, if_true]
+  · constructor
+    · intro h
+      have := congrArg String.toList h
+      simp only [String.toList_append, List.append_cancel_left_eq] at this
+      exact ⟨String.ext this, trivial⟩
+    · rintro ⟨rfl, _⟩; rfl
+  · constructor
+    · intro h; exact absurd h (hneg c c' hc')
+    · rintro ⟨_, h⟩; cases h
+  · constructor
+    · intro h; exact absurd h.symm (hneg c' c hc)
+    · rintro ⟨_, h⟩; cases h
+  · simp
+
+/-- hence: converting / inserting a goal on `-x` never touches the store entry of `x` -/
+theorem store_entries_of_other_keys_untouched (st : Store) (k k' : Key) (new : EIvl) (h : k' ≠ k) :
+    (storeOther st k new).get k' = st.get k' ∧ (storeSelf st k new).get k' = st.get k' := by
+  constructor
+  · unfold storeOther
+    cases st.get k <;> exact get_set_other _ _ _ _ h
+  · unfold storeSelf
+    cases st.get k <;> exact get_set_other _ _ _ _ h
+
 /-! ## the store only tightens -/
 
 /-- one soft-to-hard conversion keeps every consistent entry, possibly tightened -/
